@@ -72,7 +72,8 @@ def explore(binpath, cfg, fee, pct, threads=16, max_states=120000):
         if fn.startswith("details-"):
             with open(os.path.join(d, "ex", fn)) as f:
                 details += [json.loads(l) for l in f if l.strip()]
-    res = {"dir": d, "alphabet": alpha, "requests": a["reqs"], "chans": a["chans"], "hashes": a["hashes"], "nodes": nodes,
+    res = {"dir": d, "alphabet": alpha, "requests": a["reqs"], "chans": a["chans"], "hashes": a["hashes"],
+           "vlim": a.get("vlim", 0), "nodes": nodes,
            "stats": stats, "rows": len(rows), "details": details, "wall_s": time.time() - t0, "cfg": cfg, "fee": fee,
            "pct": pct}
     log("[payments] explored the real node cfg=%s fee=%d pct=%d: %d states, %d edges in %.1fs" % (
@@ -132,7 +133,8 @@ def _short(r):
 
 
 def describe(seq):
-    return " ; ".join(_short(s["req"]) + ("" if s.get("ok", True) else "!") for s in seq)
+    return " ; ".join(_short(s["req"]) + ("" if s.get("ok", True) else "!") + ("=declined" if s.get("flag") == 0 else "")
+                      for s in seq)
 
 
 def seq_key(inv, seq, cls=None):
@@ -142,12 +144,14 @@ def seq_key(inv, seq, cls=None):
     counterexamples must not change the key)"""
     if cls:
         return "%s:%s" % (inv, cls)
-    kinds = [s["req"]["op"] for s in seq if s.get("ok", True) and s["req"]["op"] not in ("Heartbeat", "Tick", "Fulfill")]
+    kinds = [s["req"]["op"] + ("=declined" if s.get("flag") == 0 else "")      # an approval answered Ok(false)
+             for s in seq if s.get("ok", True) and s["req"]["op"] not in ("Heartbeat", "Tick", "Fulfill")]
     return "%s:%s" % (inv, ";".join(kinds))
 
 
 def run_sequences(binpath, items, out, fee, pct):
-    """Leg C / replay: request sequences through a fresh real node each."""
+    """Leg C / replay: request sequences through a fresh real node each (an item's "vlim" is the payment velocity
+    limit of its node's policy; absent = unlimited)."""
     d = os.path.dirname(out)
     sf = os.path.join(d, "seqs.ndjson")
     with open(sf, "w") as f:
@@ -176,14 +180,14 @@ def simulate(cfg, fee, pct, num, depth, seed, dest_dir):
     return seqs, r
 
 
-def trace_tlc(steps_file, mon, fee, pct, exclude="", timeout=1800, invs=None, judge=""):
+def trace_tlc(steps_file, mon, fee, pct, exclude="", timeout=1800, invs=None, judge="", vlim=0):
     """Leg C step 2: TLC validates recorded implementation steps (conformance + ghost ledger)."""
     d = os.path.dirname(steps_file)
     cfg = os.path.join(d, "trace_%s.cfg" % mon)
     vlib.write_cfg(cfg, "SPECIFICATION Spec\nINVARIANTS %s\nCHECK_DEADLOCK FALSE\n" % " ".join(invs or ["C06a", "C06b"]))
     report = os.path.join(d, "trace_report_%s%s.json" % (mon, "_x" if exclude else ""))
     env = {"PM_STEPS": steps_file, "PM_FEE": fee, "PM_PCT": pct, "PM_REVOKE_VALIDATES": _bool(SWITCHES["revokeValidates"]),
-           "PM_MON": mon, "PM_REPORT": report, "PM_EXCLUDE": exclude, "PM_JUDGE": judge}
+           "PM_MON": mon, "PM_REPORT": report, "PM_EXCLUDE": exclude, "PM_JUDGE": judge, "PM_VLIM": vlim}
     r = vlib.tlc("TracePayments", cfg, env=env, workers=1, timeout=timeout, name=_nm("trace-payments"), heap="12g")
     r["report"] = json.load(open(report))
     return r
@@ -299,6 +303,32 @@ def _enforce_cases():
     return [{"chans": ch2, "hashes": h1, "prefix": p, "a": a, "b": b, "src": "hand"} for p, a, b in L]
 
 
+def _vel_cases():
+    """under a payment velocity limit of one unit per window (policy global_velocity_control): approvals that the node
+    declines because the window is full, racing with each other and with the payments they would have backed"""
+    ch2, h2 = ["c1", "c2"], ["h1", "h2"]
+
+    def inv(h):
+        return {"op": "AddInvoice", "h": h, "a": 1}
+
+    def sc(c, x):
+        return {"op": "SignCp", "ch": c, "c": x}
+    ks2 = {"op": "AddKeysend", "h": "h2", "a": 1}
+    o1, o2 = [_o("h1", 1)], [_o("h2", 1)]
+    L = [
+        ([inv("h1")], inv("h2"), sc("c1", o2)),                   # declined approval racing the payment it would have backed
+        ([inv("h1")], ks2, sc("c2", o2)),
+        ([], inv("h1"), inv("h2")),                               # two approvals racing for the last unit of the window
+        ([], inv("h1"), ks2),
+        ([inv("h1"), inv("h2")], sc("c1", o2), sc("c2", o2)),     # unbacked on both channels after the decline
+        ([inv("h1"), inv("h2")], {"op": "Heartbeat"}, sc("c1", o2)),
+        ([inv("h1")], sc("c1", o1), inv("h2")),                   # a backed payment racing a declined approval
+        ([inv("h1")], {"op": "ExpiredInvoice", "h": "h2", "a": 1}, sc("c1", o2)),
+        ([inv("h1"), sc("c1", o1)], inv("h2"), sc("c2", o2)),
+    ]
+    return [{"chans": ch2, "hashes": h2, "vlim": 1, "prefix": p, "a": a, "b": b, "src": "hand"} for p, a, b in L]
+
+
 def conc_component(tier):
     """-> (violations, coverage, number of concurrent runs).  Keys: pay-nonlinearizable:<opA>||<opB>,
     pay-stuck:<opA>||<opB>, C06a:concurrent:<opA>||<opB>, C06b:concurrent:<opA>||<opB>."""
@@ -311,10 +341,13 @@ def conc_component(tier):
         _sim_cases(20 if quick else 120, 40, vlib.seed(), 80 if quick else 600, d)
     # (group, enforce_balance, cases): the second group runs the racing pairs under policy.enforce_balance = true,
     # where replies and the final state include the node's balance register (excess_amount)
-    groups = [("", 0, plain), ("-enforce", 1, _enforce_cases())]
+    groups = [("", 0, 0, plain), ("-enforce", 1, 0, _enforce_cases())]
+    if not quick:
+        # the third group runs under a finite payment velocity limit (declined approvals)
+        groups.append(("-vel", 0, 1, _vel_cases()))
     viol, cov = [], {}
     total_runs = 0
-    for tag, enforce, cases in groups:
+    for tag, enforce, vlim, cases in groups:
         for i, c in enumerate(cases):
             c["id"] = i
         shards = min(len(cases), 6 if quick else 8)
@@ -337,11 +370,11 @@ def conc_component(tier):
         report = os.path.join(d, "report%s.json" % tag)
         vlib.tlc("ConcPayments", os.path.join(SPEC, "ConcPayments.cfg"),
                  env={"CP_RUNS": runs_file, "CP_CASES": cases_file, "CP_REPORT": report, "PM_FEE": 0, "PM_PCT": 10,
-                      "PM_REVOKE_VALIDATES": _bool(SWITCHES["revokeValidates"])},
+                      "PM_VLIM": vlim, "PM_REVOKE_VALIDATES": _bool(SWITCHES["revokeValidates"])},
                  workers=1, timeout=1800, name=_nm("conc-payments"), heap="12g")
         rep = json.load(open(report))
         by_id = {c["id"]: c for c in cases}
-        pol = " [policy enforce_balance]" if enforce else ""
+        pol = " [policy enforce_balance]" if enforce else " [policy payment velocity limit %d]" % vlim if vlim else ""
 
         def names(x):
             return tuple(sorted([x["a"]["op"], x["b"]["op"]]))
@@ -349,7 +382,7 @@ def conc_component(tier):
         def replay_of(x):
             c = by_id[x["case"]]
             return {"kind": "payments-conc", "chans": c["chans"], "hashes": c["hashes"], "prefix": c["prefix"], "a": c["a"],
-                    "b": c["b"], "held": x["held"], "k": x["k"], "enforce": enforce,
+                    "b": c["b"], "held": x["held"], "k": x["k"], "enforce": enforce, "vlim": c.get("vlim", 0),
                     "observed": {"ra": x["ra"], "rb": x["rb"], "post": x["post"], "postx": x["postx"]},
                     "sequential": {"ab": x["sab"], "ba": x["sba"]}}
 
@@ -400,14 +433,14 @@ def conc_replay(pid, rp):
     cf = os.path.join(d, "cases.ndjson")
     with open(cf, "w") as f:
         f.write(json.dumps({"id": 0, "chans": rp["chans"], "hashes": rp["hashes"], "prefix": rp["prefix"], "a": rp["a"],
-                            "b": rp["b"]}) + "\n")
+                            "b": rp["b"], "vlim": rp.get("vlim", 0)}) + "\n")
     rf = os.path.join(d, "runs.ndjson")
     vlib.run_bin(binpath, ["conc", "--cases", cf, "--out", rf, "--fee", 0, "--pct", 10, "--enforce", rp.get("enforce", 0)],
                  timeout=600)
     report = os.path.join(d, "report.json")
     vlib.tlc("ConcPayments", os.path.join(SPEC, "ConcPayments.cfg"),
              env={"CP_RUNS": rf, "CP_CASES": rf + ".cases", "CP_REPORT": report, "PM_FEE": 0, "PM_PCT": 10,
-                  "PM_REVOKE_VALIDATES": _bool(SWITCHES["revokeValidates"])}, workers=1, timeout=600, name=_nm("conc-payments-replay"))
+                  "PM_VLIM": rp.get("vlim", 0), "PM_REVOKE_VALIDATES": _bool(SWITCHES["revokeValidates"])}, workers=1, timeout=600, name=_nm("conc-payments-replay"))
     rep = json.load(open(report))
     print("  %s || %s: %d schedules, non-linearizable %d, overpaid only concurrently %d, stuck %d" % (
         _short(rp["a"]), _short(rp["b"]), rep["runs"], rep["n_nonlinearizable"], rep["n_overpaid"], len(rep["stuck"])))
